@@ -227,7 +227,7 @@ def job_tabulated(job, n, order, node=1):
         return obj.pvt_props["alpha"], want
 
     res = paths(job, run, dom, max_paths=64)
-    normal = 0
+    normal = reached = 0
     for k, pr in enumerate(res):
         tag = f"tabulated[{n} rows,{order}]"
         if pr.exc is not None:
@@ -246,9 +246,14 @@ def job_tabulated(job, n, order, node=1):
                 job.record(f"{tag}/alpha[{j}]==lambda/c of the same table[path{k}]", "unsat", 0.0, note="syntactically identical")
             else:
                 job.prove(f"{tag}/alpha[{j}]==lambda/c of the same table[path{k}]", pr.pc + [T.b_not(T.b_eq0(d))], bound=f"{n}-row table", replay=rp)
-        job.prove(f"{tag}/reach[path{k}]", pr.pc, expect="sat")
+        # a path explored because its feasibility could not be settled may be infeasible (its obligations are then vacuous
+        # but harmless); what excludes a vacuous harness is that at least one constructing path is reachable
+        v = job.prove(f"{tag}/reach[path{k}]", pr.pc, expect="info", timeout=min(job.timeout, 120))
+        reached += v == "sat"
     if not normal:
         job.errors.append(f"tabulated[{n},{order}]: no path constructs the object")
+    elif not reached:
+        job.errors.append(f"tabulated[{n},{order}]: no constructing path has a reachability witness (vacuous harness?)")
 
 
 def jobs(tier):
